@@ -401,6 +401,80 @@ theorem grid_hit {F : ℚ → ℚ} {p s a : ℚ} (h : IsGenInv F p a) (hit : F s
   have := h.2 s (not_le.mp hc)
   linarith
 
+/-! ## the masses matter only through the comparisons of their cumulated sums with the grid levels
+
+The binary64 `np.cumsum` of the masses is not modelled; this section shows what about it can matter.  Take the
+exact masses `w` (non-negative, summing to one) and ANY other positive mass vector `w'` of the same length (for
+the real code: the differences of the binary64 cumulated sums, which end at `1 ± a few ulp`).  If, along the
+value-sorted lower (upper) endpoints, the running sums of `w` and of `w'` compare the same way (`≤`) against every
+grid level, and every running sum of `w'` except the last is below one, then `stacking` returns the same p-box for
+`w'` as for `w`.  The harness evaluates exactly this hypothesis on every case (exact rational arithmetic on the
+binary64 sums numpy produces) and demands equality whenever it holds. -/
+
+structure SameCmpAll (g s w w' : List ℚ) : Prop where
+  cmp : ∀ x ∈ g, SameCmp x (sort3 (zip3 s w w')) 0 0
+  nonlast : NonLastBelow (sortByFst (s.zip w')) 0
+
+theorem mapOpt_congr (f f' : ℚ → Option ℚ) (g : List ℚ) (h : ∀ p ∈ g, f p = f' p) : mapOpt f g = mapOpt f' g := by
+  induction g with
+  | nil => rfl
+  | cons x r ih =>
+    simp only [mapOpt, h x (by simp), ih (fun p hp => h p (List.mem_cons_of_mem _ hp))]
+
+theorem getEcdf_some (s w : List ℚ) (h : s.zip w ≠ []) : ∃ e, getEcdf s w = some e := by
+  cases hL : sortByFst (s.zip w) with
+  | nil =>
+    have := (sortByFst_perm (s.zip w)).length_eq
+    rw [hL] at this
+    exact absurd (List.eq_nil_of_length_eq_zero this.symm) h
+  | cons p r => obtain ⟨s0, w0⟩ := p; exact ⟨(0, s0) :: (cumW ((s0, w0) :: r) 0).map swap, by simp only [getEcdf, hL]⟩
+
+theorem bound_same_cmp (g s w w' : List ℚ) (hv : ValidW s w) (hlen' : w.length = w'.length)
+    (hpos : ∀ x ∈ w', 0 < x) (hg : GridOK g) (hc : SameCmpAll g s w w') :
+    ∃ e e', getEcdf s w = some e ∧ getEcdf s w' = some e' ∧ bound g e' = bound g e := by
+  obtain ⟨e, he⟩ : ∃ e, getEcdf s w = some e := by
+    obtain ⟨e, _, he, _⟩ := model_geninv s w hv 1 (by norm_num) (le_refl _)
+    exact ⟨e, he⟩
+  have hzne : s.zip w' ≠ [] := by
+    intro h
+    have hl : (s.zip w').length = 0 := by rw [h]; rfl
+    simp only [List.length_zip] at hl
+    have := List.length_pos_iff.mpr hv.ne
+    have := hv.len
+    omega
+  obtain ⟨e', he'⟩ := getEcdf_some s w' hzne
+  refine ⟨e, e', he, he', ?_⟩
+  obtain ⟨hne, hnn, hsum⟩ := sorted_zip_facts s w hv
+  unfold bound
+  apply mapOpt_congr
+  intro x hx
+  obtain ⟨h0, h1⟩ := hg.1 x hx
+  obtain ⟨e0, he0, hq⟩ := model_eq_nextQ s w hv x h0 h1
+  rw [he, Option.some.injEq] at he0; subst he0
+  obtain ⟨v, hv'⟩ := nextQ_total (sortByFst (s.zip w)) 0 x (by rw [hsum]; linarith) hne
+  have hcong : nextQ (sortByFst (s.zip w')) 0 x = nextQ (sortByFst (s.zip w)) 0 x := by
+    rw [← sort3_pi1 s w w' hlen', ← sort3_pi2 s w w' hlen']
+    exact (nextQ_congr x _ 0 0 (hc.cmp x hx)).symm
+  obtain ⟨e1, he1, hq'⟩ := model_eq_nextQ_pos s w' hpos hc.nonlast x v h0 h1 (hcong.trans hv')
+  rw [he', Option.some.injEq] at he1; subst he1
+  rw [hq', hq, hv']
+
+/-- ★ two mass vectors whose cumulated sums compare the same way against every grid level give the same p-box:
+`w` the exact masses (valid DS structure), `w'` any positive masses of the same length satisfying
+`SameCmpAll` for the lower and for the upper endpoints -/
+theorem stacking_same_cmp (g lo hi w w' : List ℚ) (hlen : lo.length = hi.length) (hv : ValidW lo w)
+    (hg : GridOK g) (hlen' : w.length = w'.length) (hpos : ∀ x ∈ w', 0 < x)
+    (hclo : SameCmpAll g lo w w') (hchi : SameCmpAll g hi w w') :
+    stacking g lo hi (some w') = stacking g lo hi (some w) := by
+  have hv2 : ValidW hi w := ⟨hlen ▸ hv.len, by
+    intro h; apply hv.ne; apply List.eq_nil_of_length_eq_zero; rw [hlen, h]; rfl, hv.nonneg, hv.sum1⟩
+  obtain ⟨e1, e1', h1, h1', b1⟩ := bound_same_cmp g lo w w' hv hlen' hpos hg hclo
+  obtain ⟨e2, e2', h2, h2', b2⟩ := bound_same_cmp g hi w w' hv2 hlen' hpos hg hchi
+  simp only [stacking, weightsOf, h1, h1', h2, h2', b1, b2, ← hlen']
+
+example : SameCmp (1/2) [((1 : ℚ), (1/4 : ℚ), (3/10 : ℚ)), (2, 3/4, 7/10)] 0 0 := by
+  simp only [SameCmp]; norm_num
+
 /-! ## round trip `to_dss().to_pbox()` -/
 
 /-- a well-formed p-box with `n` steps -/
